@@ -31,6 +31,7 @@ FUNCTIONS_ENCODED = [
     "pyanalyze.node_visitor.BaseNodeVisitor.show_errors_for_unused_ignores",
     "pyanalyze.node_visitor.BaseNodeVisitor.show_errors_for_bare_ignores",
     "pyanalyze.node_visitor.BaseNodeVisitor.is_enabled",
+    "pyanalyze.node_visitor.BaseNodeVisitor.catch_errors / show_caught_errors (record while probing, filter on re-emission)",
 ]
 BOUNDS = {
     "quick": {"file": "<= 3 lines over 9 line kinds", "diagnostics": "<= 2, symbolic (line, code)",
@@ -38,7 +39,7 @@ BOUNDS = {
     "thorough": {"file": "<= 4 lines over 9 line kinds", "diagnostics": "<= 2, symbolic (line, code)",
                  "disabled_set": "symbolic enabled flag for each diagnostic's code", "comment_code_text": "symbolic choice among 4 texts (aa, aab - contains aa -, zz, a comma list); 3 tails after a bare comment"},
 }
-OUTSIDE = ["catch_errors re-emission paths inside the visitor", "command-line parsing",
+OUTSIDE = ["which visitor code paths probe under catch_errors (binary operators, overloads) and what they do with the list", "command-line parsing",
            "how NameCheckVisitor chooses the node (line) a diagnostic is attached to"]
 STUBS = ["sys.stderr of node_visitor replaced by a sink (show_error prints the message)"]
 ASSUMPTIONS = ["the projection oracle is the rule list of the property statement (35 lines)"]
@@ -253,12 +254,26 @@ def h11(l1: int, c1: int, l2: int, c2: int, e1: bool, e2: bool, tsel: int, ssel:
     contents = "\n".join(lines) + "\n"
     vis = TV("f.py", contents, None, settings=settings)
     got = set()
-    for (ln, code) in diags:
-        f = vis.show_error(_FakeNode(ln, 0), error_code=code)
-        if f is not None:
-            if f.get("lineno") != ln or f.get("code") is not code:
-                return fin(False)
-            got.add((ln, code))
+    if G.case.get("caught"):
+        # Diagnostics raised while a caller is probing (catch_errors) are recorded whatever the
+        # enabled set is - callers use the list as a "did this attempt typecheck" signal, so a disabled
+        # code must not change it - and filtering happens when they are re-emitted.
+        with vis.catch_errors() as caught:
+            for (ln, code) in diags:
+                if vis.show_error(_FakeNode(ln, 0), error_code=code) is not None:
+                    return fin(False)
+        if len(caught) != len(diags) or vis.all_failures:
+            return fin(False)
+        vis.show_caught_errors(caught)
+        for f in vis.all_failures:
+            got.add((f.get("lineno"), f.get("code")))
+    else:
+        for (ln, code) in diags:
+            f = vis.show_error(_FakeNode(ln, 0), error_code=code)
+            if f is not None:
+                if f.get("lineno") != ln or f.get("code") is not code:
+                    return fin(False)
+                got.add((ln, code))
     want, covered = oracle(kinds, text, tail, diags, disabled)
     if got != want:
         return fin(False)
@@ -345,4 +360,8 @@ def cases(tier: str, seed: int) -> List[Case]:
             if take_two:
                 out.append(Case("h11", lab + ":2", {"kinds": list(kinds), "two": True}, timeout=150 if quick else 600,
                                 twin=(idx % 5 == 0)))
+            if n <= 2 and (n == 1 or idx % 3 == 0 or not quick):
+                # the same diagnostics raised under catch_errors() and re-emitted
+                out.append(Case("h11", lab + ":caught", {"kinds": list(kinds), "two": n == 2, "caught": True},
+                                timeout=150 if quick else 600, twin=(idx % 5 == 0)))
     return out
